@@ -263,19 +263,18 @@ Proof.
     etransitivity; [|exact Hk]. apply Hrows. apply nth_In. lia.
 Qed.
 
-(** ** the theorem *)
-Theorem raw_cost_spec fuel right left lines rc :
-  build_raw fuel right left lines = Some rc -> N.of_nat (length lines) + 1 < INVALID ->
+(** ** the lanes of two rows (padded to any width [k8] >= the number of templates) against the
+    defining sum on strings *)
+Lemma lane_sum_spec lines rt lt T right left k8 :
+  RInv lines rt lt T -> N.of_nat (length lines) + 1 < INVALID ->
+  let k := fold_right Nat.max 0%nat (map (@length _) (right ++ left)) in
+  (k <= k8)%nat ->
   forall r l, (N.to_nat r <= length right)%nat -> (N.to_nat l <= length left)%nat ->
-  raw_cost rc r l = spec_cost right left lines r l.
+  lane_sum T (nth (N.to_nat r) (pad_to k8 (repeat 0 k) :: map (fun x => pad_to k8 (feat_ids rt x)) right) [])
+             (nth (N.to_nat l) (pad_to k8 (repeat 0 k) :: map (fun x => pad_to k8 (feat_ids lt x)) left) [])
+  = spec_cost right left lines r l.
 Proof.
-  intros Hb Hsmall r l Hr Hl. rewrite (raw_cost_lane_sum fuel right left lines rc Hb). cbn zeta.
-  pose proof (read_costs_inv lines [] [[]] [[]] [] rinv_init) as I. cbn [app] in I.
-  unfold build_raw in Hb. destruct (read_costs lines [[]] [[]] []) as [[rt lt] T] eqn:E. cbn [snd].
-  destruct (build fuel T) as [sc|]; [|discriminate]. inversion Hb; subst rc; clear Hb. cbn [rc_right rc_left].
-  set (k := fold_right Nat.max 0%nat (map (@length _) (right ++ left))).
-  set (k8 := ceil8 k).
-  assert (Hk : (k <= k8)%nat) by apply ceil8_ge.
+  intros I Hsmall k Hk r l Hr Hl.
   assert (HR : forall row, In row right -> (length row <= k)%nat) by (intros row H; apply max_bound, in_or_app; now left).
   assert (HL : forall row, In row left -> (length row <= k)%nat) by (intros row H; apply max_bound, in_or_app; now right).
   destruct (ri_empty _ _ _ _ I) as [Er El]. destruct (ri_len _ _ _ _ I) as [Lr Ll].
@@ -312,4 +311,17 @@ Proof.
       destruct (ri_listed _ _ _ _ I a b) as [_ H]; congruence.
   - rewrite NoR. destruct (table_get lines a b None) eqn:Eg; [|reflexivity].
     destruct (ri_listed _ _ _ _ I a b) as [H _]; congruence.
+Qed.
+
+(** ** the theorem *)
+Theorem raw_cost_spec fuel right left lines rc :
+  build_raw fuel right left lines = Some rc -> N.of_nat (length lines) + 1 < INVALID ->
+  forall r l, (N.to_nat r <= length right)%nat -> (N.to_nat l <= length left)%nat ->
+  raw_cost rc r l = spec_cost right left lines r l.
+Proof.
+  intros Hb Hsmall r l Hr Hl. rewrite (raw_cost_lane_sum fuel right left lines rc Hb). cbn zeta.
+  pose proof (read_costs_inv lines [] [[]] [[]] [] rinv_init) as I. cbn [app] in I.
+  unfold build_raw in Hb. destruct (read_costs lines [[]] [[]] []) as [[rt lt] T] eqn:E. cbn [snd].
+  destruct (build fuel T) as [sc|]; [|discriminate]. inversion Hb; subst rc; clear Hb. cbn [rc_right rc_left].
+  apply (lane_sum_spec lines rt lt T right left _ I Hsmall (ceil8_ge _)); assumption.
 Qed.
